@@ -266,7 +266,8 @@ def core_types():
         # the two deepest ones end in `char` so that no value-level machinery is instantiated for them
         d = U16 if depth <= 70 else T("char")
         for i in range(depth):
-            d = [T("option", [d]), T("vec", [d]), T("tuple", [d]), T("array", [d], 1), T("option", [T("box", [d])])][i % 5]
+            # every fifth level branches: the sibling is a type nothing else mentions, first met after the deep part
+            d = [T("option", [d]), T("vec", [d]), T("tuple", [d, T("array", [P("i16")], 1000 + depth + i)]), T("array", [d], 1), T("option", [T("box", [d])])][i % 5]
         out.append(d)
     # PhantomData first, then several real members
     out += [T("tuple", [T("phantom", [U8]), U8, U16, STRING]), T("tuple", [U8, T("phantom", [U8]), U16, U32, BOOL]), T("tuple", [T("phantom", [U8]), T("phantom", [U16]), U8, U16, U32])]
